@@ -161,6 +161,22 @@ def run(repo, res):
                   'undefined there' % (r['cls'], r['b'], r['cls'], r['a'], r['a'], r['b'], r['a']),
                   sample='%s: bindings of block %s reach block %s' % (r['cls'], r['a'], r['b']))
     res.count('block_pairs', nblocks, floor=100)
+    # the lookups honour that region graph: supp's own names_at interpreted on the graph rebuilt from its own Flow objects
+    from .. import resolve_model as _M
+    lrecs, lq = _M.lookup_reach_records(repo)
+    seen = set()
+    for r in lrecs:
+        bad = r['struct_may'] and not r['sem_may']
+        k = (R.method_name(repo, r['cls']), r['a'], r['b'], bad)
+        if k in seen:
+            continue
+        seen.add(k)
+        res.check('C01-R5', '%s %s -> %s lookup' % k[:3], not bad, r['line'][0], r['line'][1],
+                  'on %s shape `%s` the region %s is visited in inherits from the region of %s, yet supp\'s own lookup (names_at on '
+                  'the graph rebuilt from its Flow objects, in the state the extractor leaves them) does not find a name bound in %s '
+                  'there: it is reported undefined' % (r['cls'], r['variant'], r['b'], r['a'], r['a']),
+                  sample='%s: the lookup at %s finds the bindings of %s' % (r['cls'], r['b'], r['a']))
+    res.count('lookup_reach_queries', lq, floor=300)
 
     # ---- R7 star imports ---------------------------------------------------------------------------
     from .. import resolve_model as M
